@@ -44,10 +44,46 @@ type Conflict struct {
 type FnResult struct {
 	Static      *Rec
 	Cert        map[string]int // "pc|mode" -> depth (first arrival)
-	Conflict    *Conflict      // first conflicting arrival, if any
+	Conflict    *Conflict      // a conflicting arrival, if any: the one at the smallest (pc, mode, arriving pc, depth) - independent of the order in which TLC's workers emit the records
+	Conflicts   []Conflict     // every conflicting arrival (capped), for the cause classification
 	Errs        []Rec
 	Unv         []Rec
 	Transitions int
+}
+
+// normalizeConflicts orders the conflicting arrivals canonically (within a conflict the arrival with
+// the smaller (depth, pc) is First) and picks the smallest as the representative.
+func (r *FnResult) normalizeConflicts() {
+	less := func(a, b Rec) bool {
+		if a.D != b.D {
+			return a.D < b.D
+		}
+		return a.P < b.P
+	}
+	for i := range r.Conflicts {
+		c := &r.Conflicts[i]
+		if less(c.Second, c.First) {
+			c.First, c.Second = c.Second, c.First
+		}
+	}
+	sort.SliceStable(r.Conflicts, func(i, j int) bool {
+		a, b := r.Conflicts[i], r.Conflicts[j]
+		switch {
+		case a.Pc != b.Pc:
+			return a.Pc < b.Pc
+		case a.Mode != b.Mode:
+			return a.Mode < b.Mode
+		case a.First.P != b.First.P:
+			return a.First.P < b.First.P
+		case a.Second.P != b.Second.P:
+			return a.Second.P < b.Second.P
+		}
+		return a.Second.D < b.Second.D
+	})
+	if len(r.Conflicts) > 0 {
+		c := r.Conflicts[0]
+		r.Conflict = &c
+	}
 }
 
 func (r *FnResult) Clean() bool {
@@ -261,8 +297,8 @@ func Explore(c *core.Ctx, fns []*Fn, opnames []string, deviations []string, maxD
 					if d, ok := fr.Cert[key]; !ok {
 						fr.Cert[key] = r.D
 						first[fmt.Sprintf("%d/%s", r.F, key)] = r
-					} else if d != r.D && fr.Conflict == nil {
-						fr.Conflict = &Conflict{Pc: r.Q, Mode: r.M, First: first[fmt.Sprintf("%d/%s", r.F, key)], Second: r}
+					} else if d != r.D && len(fr.Conflicts) < 400 {
+						fr.Conflicts = append(fr.Conflicts, Conflict{Pc: r.Q, Mode: r.M, First: first[fmt.Sprintf("%d/%s", r.F, key)], Second: r})
 					}
 				}
 			},
@@ -277,6 +313,9 @@ func Explore(c *core.Ctx, fns []*Fn, opnames []string, deviations []string, maxD
 			return core.Inconclusivef("TLC explore (Bytecode) shard %d: verdict=%s %s\n%s", si, res.Verdict, res.What, tailStr(res.Output, 2500))
 		}
 		tot.add(res)
+		for _, v := range local {
+			v.normalizeConflicts()
+		}
 		mu.Lock()
 		for k, v := range local {
 			if v.Static == nil {
